@@ -397,6 +397,48 @@ CFailDispatch(r) ==
        ELSE IF Len(r.obs.eq) = r.obs.len /\ \A i \in DOMAIN r.obs.eq : r.obs.eq[i] THEN {} ELSE {"element_ne_scalar"}
 
 \* ---------------------------------------------------------------------------------
+\* 6b. scale.  The vectorised entry points are ELEMENTWISE: result element i depends on element i of the array
+\*     argument(s) only.  Hence they commute with concatenation, F(a \o b) = F(a) \o F(b), and a result of any
+\*     length is decided by results on small arrays: for an argument that tiles a 3-entry value table, the result
+\*     tiles the result on the first 3 elements, block by block, and equals the concatenation of the results on
+\*     any partition into parts.  (CosmoMC checks the law on the small scope: ScaleLaw.)
+CTileIdx(i) == ((i - 1) % 3) + 1
+CFormsOf(q) == IF q \in COneArg THEN {"vec"} ELSE {"vec1", "vec2", "2vec"}      \* which argument(s) are arrays
+CScalePair(form, i) == <<IF form \in {"vec", "vec1", "2vec"} THEN CTileIdx(i) ELSE 0,
+                         IF form \in {"vec2", "2vec"} THEN CTileIdx(i) ELSE 0>>
+CScalePairs(form, off, n) == [i \in 1..n |-> CScalePair(form, off + i)]
+CBlockCount(n, B) == (n + B - 1) \div B
+CBlocks(n, B) == [k \in 1..CBlockCount(n, B) |-> <<(k - 1) * B, VMin2(B, n - (k - 1) * B)>>]      \* <<offset, length>>
+\* positions compared with scalar calls: the first and the last element of every block
+CScaleSamples(n, B) == {1, n} \cup {k * B : k \in 1..(n \div B)} \cup {k * B + 1 : k \in 1..((n - 1) \div B)}
+
+\* r = [q, form, n, block, obs = [kind, len, blocks : Seq(<<offset, length, eq>>), parts_eq, samples : Seq(<<pos, ia, ib, eq>>)]]
+\*   blocks[k].eq   block k of the result is bit-identical to the tiled result of the SAME call on the first 3 elements
+\*   parts_eq       the result is bit-identical to the concatenation of the results of the same call on a partition
+\*   samples[j].eq  the element is bit-identical to the scalar call on its VALUES
+CFailScale(r) ==
+    LET o == r.obs IN
+    IF o.kind = "rejected" THEN {"unexpected_rejection"}
+    ELSE IF o.kind # "array" THEN {"result_kind"}
+    ELSE IF o.len # r.n THEN {"result_length"}
+    ELSE IF Len(o.blocks) # CBlockCount(r.n, r.block)
+            \/ \E k \in DOMAIN o.blocks : <<o.blocks[k][1], o.blocks[k][2]>> # CBlocks(r.n, r.block)[k]
+         THEN {"harness_blocks_mismatch"}
+    ELSE IF {o.samples[j][1] : j \in DOMAIN o.samples} # CScaleSamples(r.n, r.block)
+            \/ \E j \in DOMAIN o.samples : <<o.samples[j][2], o.samples[j][3]>> # CScalePair(r.form, o.samples[j][1])
+         THEN {"harness_samples_mismatch"}
+    ELSE (IF \A k \in DOMAIN o.blocks : o.blocks[k][3] THEN {} ELSE {"scale_block_ne_tiled_small_result"}) \cup
+         (IF o.parts_eq THEN {} ELSE {"scale_ne_concatenation_of_parts"}) \cup
+         (IF \A j \in DOMAIN o.samples : o.samples[j][4] THEN {} ELSE {"element_ne_scalar"})
+
+\* 6c. concurrency.  Calls on one shared object from several threads: each gets the sequential answer.
+\* r = [q, form, nthreads, mism : Seq(Nat)]   mism[t] = number of rounds in which thread t's result was not
+\* bit-identical to the result of the same call made alone
+CFailThreads(r) ==
+    IF Len(r.mism) # r.nthreads THEN {"harness_threads_mismatch"}
+    ELSE IF \A t \in DOMAIN r.mism : r.mism[t] = 0 THEN {} ELSE {"concurrent_ne_sequential"}
+
+\* ---------------------------------------------------------------------------------
 \* 7. copies.  r = [args, chain : Seq(kind), err, rep0, steps : Seq([err, rep, same_params, same_dist])]
 CCopyKinds == {"copy", "copy.copy", "deepcopy", "pickle"}
 CFailCopy(r) ==
